@@ -212,7 +212,7 @@ fn canaries(db: &mut Db, rows: &mut usize, seq: usize) -> Result<(), (String, St
 
 pub fn run_sequence(c: &SeqCase, tr: &mut u64) -> Option<(String, String, usize)> {
     let _ = take_panics();
-    std::env::set_var("LVMC_DEADLINE_MS", std::env::var("LVMC_C11_DEADLINE_MS").unwrap_or_else(|_| "3000".into()));
+    std::env::set_var("LVMC_DEADLINE_MS", std::env::var("LVMC_C11_DEADLINE_MS").unwrap_or_else(|_| "8000".into()));
     let (mut db, r) = Db::open(&c.opts, None);
     std::env::remove_var("LVMC_DEADLINE_MS");
     if !matches!(r, Outcome::Ok(())) {
@@ -319,7 +319,7 @@ impl Engine for C11 {
                 let mut r = run_sequence(&case, &mut tr);
                 if let Some((sig, _, _)) = &r {
                     if sig.contains("hang") {
-                        std::env::set_var("LVMC_C11_DEADLINE_MS", "12000");
+                        std::env::set_var("LVMC_C11_DEADLINE_MS", "30000");
                         let mut tr2 = 0;
                         let again = run_sequence(&case, &mut tr2);
                         std::env::remove_var("LVMC_C11_DEADLINE_MS");
@@ -384,10 +384,10 @@ impl Engine for C11 {
             }
             for (choices, sig, what, trace) in local {
                 out.violation(Violation {
-                    sig: format!("C11:schedule:{}", sig),
+                    sig: format!("C11:schedule:{}", sig.clone()),
                     what: format!("failing query {:?} during force_flush, schedule {:?} (sync points {:?}): {}", sc.query, choices, trace, what),
                     weight: choices.len() as u64,
-                    case: serde_json::to_value(gate::GateCase { scenario: sc.clone(), schedule: choices }).unwrap(),
+                    case: serde_json::to_value(gate::GateCase { scenario: sc.clone(), schedule: choices, expect: sig.clone() }).unwrap(),
                 });
             }
         }
@@ -403,7 +403,7 @@ impl Engine for C11 {
             return Some(v);
         }
         let c: SeqCase = serde_json::from_value(case.clone()).ok()?;
-        std::env::set_var("LVMC_C11_DEADLINE_MS", "12000");
+        std::env::set_var("LVMC_C11_DEADLINE_MS", "30000");
         let mut tr = 0;
         let r = run_sequence(&c, &mut tr);
         r.map(|(sig, what, at)| Violation {
